@@ -18,7 +18,9 @@ SPEC = dict(
                "entries only), checked against a nondeterministic model in which dead entries may vanish at any time; "
                "(3) single-writer rounds: one goroutine runs a fixed script of 150-400 Put / Get / Delete / Clear while four others call Stats() "
                "in a tight loop - every answer must be one of the states the script passes through when run alone, never an earlier one after a later one; "
-               "(4) a 16-goroutine LRU hammer. Any race report whose stack touches the module is a violation.",
+               "(4) a monitor hammer: 16 goroutines x thousands of monitored searches, then every total - also the sum of the observed query lengths - must account for "
+               "every search; (5) a 16-goroutine LRU hammer. A round whose goroutines are still parked on locks of the code under test after two minutes, none running, "
+               "is reported as a deadlock with their stacks (anything else that slow is inconclusive). Any race report whose stack touches the module is a violation.",
     level_note="The race detector sees only races on executed paths with the observed happens-before; linearizability is decided per recorded history "
                "(porcupine timeout 10 s => inconclusive). EnableCache / EnableMonitoring are not in the statement's list of concurrent operations and are not mixed in.",
     engines=[dict(name="conc-search", shards=T(8, 16), timeout=T(1500, 7200), race=True, parallel=8),
@@ -27,10 +29,10 @@ SPEC = dict(
          "(round parameters) resp. by the observed order of call events (an interleaving shape); all are non-trivial (concurrent by construction).",
     floors=T({"goroutine-rounds": 40, "concurrent-answers-compared": 3000, "loaded-by:LoadDatabaseWithFallback(faulty path)": 8, "monitored-searches": 500,
               "histories-linearizable": 2000, "histories-searchcache": 300, "lru-hammer-rounds": 30, "distinct_nontrivial": 2000,
-              "rounds-with-embeddings": 8, "fresh-instance-answers-compared": 60, "other-process-answers-compared": 50, "snapshot-rounds": 200, "snapshot-reads": 50000, "histories-with-lifetime": 500, "sweeps-that-removed-entries": 30},
+              "rounds-with-embeddings": 8, "fresh-instance-answers-compared": 60, "other-process-answers-compared": 50, "snapshot-rounds": 200, "snapshot-reads": 50000, "monitor-hammer-searches": 500000, "histories-with-lifetime": 500, "sweeps-that-removed-entries": 30},
              {"goroutine-rounds": 250, "concurrent-answers-compared": 20000, "loaded-by:LoadDatabaseWithFallback(faulty path)": 50, "monitored-searches": 3000,
               "histories-linearizable": 40000, "histories-searchcache": 6000, "lru-hammer-rounds": 300, "distinct_nontrivial": 40000,
-              "rounds-with-embeddings": 60, "fresh-instance-answers-compared": 500, "other-process-answers-compared": 400, "snapshot-rounds": 2000, "snapshot-reads": 500000, "histories-with-lifetime": 10000, "sweeps-that-removed-entries": 600}),
+              "rounds-with-embeddings": 60, "fresh-instance-answers-compared": 500, "other-process-answers-compared": 400, "snapshot-rounds": 2000, "snapshot-reads": 500000, "monitor-hammer-searches": 5000000, "histories-with-lifetime": 10000, "sweeps-that-removed-entries": 600}),
     assumptions=["two thirds of the recorded LRU histories have no lifetime (time-independent model); in the others time is virtual (VerifAdvance) and ages are 400 h steps against a 1000 h lifetime, so real elapsed time never decides",
                  "all searches of one round use the same option set so that the cache-key projection cannot confuse requests (C05's business)"],
 )
